@@ -34,6 +34,9 @@ func c06(c *core.Ctx) {
 	c.Rule("C06.sendlimit", "every function that writes message chunks compares what it is about to send with the negotiated MaxMessageSize and MaxChunkCount before the first Write, with an error return on the failing edge", 2)
 	c.Rule("C06.recvlimit", "on the receive side, buffering an intermediate chunk is followed by a MaxChunkCount comparison with an error path, and DecodeService is dominated by a MaxMessageSize comparison of the merged message", 2)
 
+	c.Rule("C06.accept", "each side accepts every chunk up to the size it advertised: the size tests of Conn.Receive reject exactly MessageSize > Acknowledge.ReceiveBufSize and MessageSize < hdrlen — no `>=`, no other bound", 3)
+	c06Accept(c, "C06.accept")
+
 	cg := c.P.CallGraph()
 	// consume
 	for _, t := range [][2]string{{"Hello", "ReceiveBufSize"}, {"Hello", "SendBufSize"}, {"Hello", "MaxMessageSize"}, {"Hello", "MaxChunkCount"}, {"Acknowledge", "ReceiveBufSize"}, {"Acknowledge", "SendBufSize"}, {"Acknowledge", "MaxMessageSize"}, {"Acknowledge", "MaxChunkCount"}} {
